@@ -14,7 +14,7 @@ worker() {
       mkdir "/verif/.work/claim-$p-$var" 2>/dev/null || continue
       # the author may still be verifying: wait until the worktree is clean again
       for k in $(seq 1 30); do [ -z "$(git -C /tmp/wt/$p status --porcelain --untracked-files=no)" ] && break; sleep 10; done
-      /verif/tools/ingest_batch.sh "$wt" "$p:$var:${NB[$p]}" > "/verif/.work/ing9-$p.log" 2>&1
+      /verif/tools/ingest_batch.sh "$wt" "$p:$var:${NB[$p]}" > "/verif/.work/ing-$p.log" 2>&1
       did=1
     done
     [ $did = 0 ] && sleep 20
